@@ -136,7 +136,7 @@ func vhostTerm(v *route.VirtualHost) string {
 }
 
 func genVhostCases(t *testing.T, c *vlib.Collector, id int, seed uint64) int {
-	n := vlib.Scale(40, 1500)
+	n := vlib.Scale(30, 1500)
 	for i := 0; i < n; i++ {
 		r := vlib.NewRand(seed*2000003 + uint64(i)*104729 + 5)
 		sc := genScenario(r)
